@@ -247,13 +247,17 @@ fn gen_obj(rng: &mut Rng, prios: &[u32], now_max: u64, paced_ok: bool) -> String
     // number of source symbols restricted to 2^a 5^b so that pacing ticks are whole nanoseconds
     let nsym = *rng.pick(&[0u64, 1, 1, 2, 2, 4, 5, 8]);
     let len = if nsym == 0 { 0 } else { (nsym - 1) * e as u64 + rng.range(1, e as u64) };
-    let max = *rng.pick(&[1u32, 1, 1, 2, 3]);
+    let mut max = *rng.pick(&[1u32, 1, 1, 2, 3]);
     let car = match rng.below(6) {
         0 => "d0".to_string(),
         1 => format!("d{}", rng.range(1, 5) * 100),
         2 => format!("i{}", rng.range(1, 8) * 100),
         _ => "n".to_string(),
     };
+    // a carousel object may be configured with max_transfer_count 0 (one transfer per turn)
+    if car != "n" && rng.chance(1, 6) {
+        max = 0;
+    }
     let target = if !paced_ok {
         "n".to_string()
     } else {
